@@ -95,7 +95,7 @@ def repr_hypers(rs, thorough):
     # random assignments
     allk = list(fw.KERNEL_PARAM_KEYS) + ["precomputed", "nan_euclidean", "foo"]
     allm = ["euclidean", "l2", "l1", "manhattan", "cityblock", "cosine", "precomputed", "nan_euclidean", "haversine"]
-    for _ in range(400 if thorough else 40):
+    for _ in range(2000 if thorough else 40):
         e = (fw.MMD_EST + fw.WASS_EST)[rs.randint(8)]
         h = {}
         if rs.rand() < 0.7:
@@ -286,14 +286,21 @@ def check_named_vs_precomputed(spec):
         fails.append({"key": "score:documented-gemini", "what": f"score {sc1!r} is not the documented GEMINI {direct!r} on the scikit-learn affinity",
                       "expected": direct, "actual": sc1})
     if e in fw.SPARSE_EST and spec.get("path", True):
-        tol = None if spec.get("common", {}).get("batch_size") is None else 1e-9
+        full = spec.get("common", {}).get("batch_size") is None
         r1 = fw.path_outputs(fw.make(e, hn).path(X, None, **PATH_KW))
         r2 = fw.path_outputs(fw.make(e, hp).path(X, A, **PATH_KW))
         info["path_steps"] = int(len(r1[-1][1]))
-        # full batch: bit-identical; mini-batches: the named run re-evaluates the kernel on each validation batch, which
-        # BLAS may round differently from a slice of the full matrix
-        b = _cmp(fails, "path:named-vs-precomputed", "path outputs with named vs precomputed affinity", r1, r2, tol=tol)
-        info[("bitwise" if b else "within_tol") + (":full" if tol is None else ":batch")] = 1
+        # the named run re-evaluates the kernel on every validation batch (on the F-ordered copy X_batch[:, mask], or on a
+        # mini-batch), which scikit-learn/BLAS may round 1 ulp away from the matrix computed once on X; the MMD takes a
+        # square root of a difference of such sums, so the validation scores (`geminis`) are compared to 5e-6 (the MMD
+        # tolerance of C01); best weights, penalties, alphas and n_features must be bit-identical
+        n0 = len(fails)
+        ex = lambda r: [x for x in r if x[0] != "geminis"]
+        gm = lambda r: [x for x in r if x[0] == "geminis"]
+        _cmp(fails, "path:named-vs-precomputed", "path outputs with named vs precomputed affinity", ex(r1), ex(r2))
+        b = _cmp(fails, "path:named-vs-precomputed", "path validation scores with named vs precomputed affinity", gm(r1), gm(r2), tol=5e-6)
+        if len(fails) == n0:
+            info[("bitwise" if b else "within_tol") + (":full" if full else ":batch")] = 1
         r3 = fw.path_outputs(fw.make(e, hn).path(X, junk, **PATH_KW))
         _cmp(fails, "path:named-ignores-y", "path(X, y) with a named affinity must not use y (docstring: 'Otherwise, it is not used')", r1, r3)
     return fails, info
@@ -338,7 +345,10 @@ def check_callable(spec):
     if e in fw.SPARSE_EST:
         r1 = fw.path_outputs(fw.make(e, hc).path(X, None, **PATH_KW))
         r2 = fw.path_outputs(fw.make(e, hp).path(X, A, **PATH_KW))
-        _cmp(fails, "path:callable-vs-precomputed", "path outputs with a callable kernel vs precomputed f(X)", r1, r2, tol=1e-9)
+        ex = lambda r: [x for x in r if x[0] != "geminis"]
+        gm = lambda r: [x for x in r if x[0] == "geminis"]
+        _cmp(fails, "path:callable-vs-precomputed", "path outputs with a callable kernel vs precomputed f(X)", ex(r1), ex(r2))
+        _cmp(fails, "path:callable-vs-precomputed", "path validation scores with a callable kernel vs precomputed f(X)", gm(r1), gm(r2), tol=5e-6)
     return fails, info
 
 
@@ -467,14 +477,22 @@ CHECKS = {"named_vs_precomputed": check_named_vs_precomputed, "callable": check_
           "documented": check_documented, "kauri": check_kauri}
 
 
-def run_spec(ctx, spec):
+def safe_check(spec):
+    """run one oracle; an exception escaping it is itself a failure of the property on that input"""
     unit = spec["check"]
     try:
-        fails, info = CHECKS[unit](spec)
+        return CHECKS[unit](spec)
     except Exception as ex:
         import traceback
-        fails, info = [{"key": f"{unit}:raised", "what": f"{unit} on {spec['estimator']} raised {type(ex).__name__}: {str(ex)[:200]}"
-                        f" @ {traceback.format_exc().strip().splitlines()[-3][:160]}", "expected": None, "actual": type(ex).__name__}], {}
+        tb = traceback.format_exc().strip().splitlines()
+        where = next((l.strip() for l in reversed(tb) if l.strip().startswith("File") and "gemclus" in l), tb[-3].strip() if len(tb) > 2 else "")
+        return [{"key": f"{unit}:raised", "what": f"{unit} on {spec['estimator']} raised {type(ex).__name__}: {str(ex)[:200]} @ {where[:160]}",
+                 "expected": None, "actual": type(ex).__name__}], {}
+
+
+def run_spec(ctx, spec):
+    unit = spec["check"]
+    fails, info = safe_check(spec)
     for f in fails:
         ctx.violation(f["what"], unit, spec, expected=f.get("expected"), actual=f.get("actual"), key=f["key"],
                       how="harness.props.c11.CHECKS[spec['check']](spec)  /  ./check C11 --replay <this file>")
@@ -602,8 +620,9 @@ def run(ctx):
     rs = np.random.RandomState(ctx.seed * 7919 + 11)
     correspondence(ctx, rs)
     rs = np.random.RandomState(ctx.seed * 7919 + 12)
-    for spec in gen_specs(ctx, rs):
-        run_spec(ctx, spec)
+    for _ in range(1 if ctx.tier == "quick" else 6):
+        for spec in gen_specs(ctx, rs):
+            run_spec(ctx, spec)
     ctx.trusted += ["scikit-learn pairwise_kernels / pairwise_distances are opaque operations of the model (theorems hold for any interpretation)",
                     "that fit / path / score depend on the kernel hyperparameters only through the affinity and the resolved GEMINI is "
                     "not a theorem: it is what the bitwise named-vs-precomputed runs of this check observe",
@@ -622,7 +641,7 @@ def replay(ctx, path):
         print(f"replay {path}: no concrete input (kind={rep.get('kind')})")
         return 2
     ctx.proof = {"theorems": [], "discharged": [], "broken": [], "build_ok": True, "log": ""}
-    fails, _ = CHECKS[spec["check"]](spec)
+    fails, _ = safe_check(spec)
     for f in fails:
         print(f"REPRODUCED {f['key']}: {f['what']}")
     if not fails:
